@@ -282,6 +282,14 @@ pub fn dispatch(f: &[&str]) -> Result<String, String> {
                 },
             }
         }
+        // RONSTR <text> : one RON string literal read with the options zerv reads its documents with ; OK <value> | ERR
+        "RONSTR" => {
+            let t = unhex(f[1])?;
+            match zerv::version::zerv::zerv_ron_options().from_str::<String>(&t) {
+                Ok(v) => Ok(format!("OK {}", hex(&v))),
+                Err(_) => Ok("ERR".into()),
+            }
+        }
         // FMTZ <fmt> Z... : OutputFormatter::format_output without template
         "FMTZ" => {
             let mut c = crate::zenc::Cur { f, i: 2 };
